@@ -252,8 +252,17 @@ def check_proj(case, ctx):
         # block means to triangulate: second symptom of known finding D12, excluded by construction)
         exp_shape = (2 * nr, 2 * nc)
         kw["shape"] = exp_shape
+    # "method : string or Verde gridder": the same interpolators handed over as objects (the deprecated ScipyGridder included, which
+    # can fill the outside of SciPy's triangulation with a number - the hull mask of project_grid still has to blank it)
+    mform = ["string", "string", "object", "scipygridder", "scipygridder_fill"][build.small_hash(case, 10) % 5]
+    method_arg = case["method"]
+    if mform == "object":
+        method_arg = {"nearest": vd.KNeighbors, "linear": vd.Linear, "cubic": vd.Cubic}[case["method"]]()
+    elif mform.startswith("scipygridder"):
+        extra = dict(extra_args=dict(fill_value=float(np.nanmean(vals)))) if mform.endswith("fill") and case["method"] != "nearest" else {}
+        method_arg = build.quiet(vd.ScipyGridder, method=case["method"], **extra)
     try:
-        out = vd.project_grid(grid, proj, method=case["method"], antialias=case["antialias"], **kw)
+        out = build.quiet(vd.project_grid, grid, proj, method=method_arg, antialias=case["antialias"], **kw)
     except Exception as exc:  # noqa: BLE001 - re-raised unless it is the narrow class of known finding D12
         if type(exc).__name__ == "QhullError" and case["antialias"] and case["method"] in ("linear", "cubic"):
             try:
@@ -331,7 +340,7 @@ def check_proj(case, ctx):
         # between the nodes the cubic interpolant reproduces an affine field only approximately
         rtol = 1e-9 if case["method"] == "linear" else 1e-3
         ctx.check(np.all(np.abs(res[okm] - exp[okm]) <= rtol * max(1.0, np.abs(exp).max())), "affine data are not reproduced by the %s interpolation", case["method"])
-    ctx.label(desc["kind"], case["method"], "antialias" if case["antialias"] else "no_antialias", "kw_" + case["kw"], "holes" if case["holes"] else "no_holes")
+    ctx.label(desc["kind"], case["method"], "antialias" if case["antialias"] else "no_antialias", "kw_" + case["kw"], "holes" if case["holes"] else "no_holes", "method_as_" + mform)
     if n_out:
         ctx.label("nodes_outside_hull")
     if n_d12:
